@@ -27,26 +27,26 @@ PROPS = ['C%02d' % i for i in range(1, 21)]
 
 # scenario plan: property -> tier -> [(family, count or None)]
 PLAN = {
-    'C01': {'quick': [('nest', 500), ('redispatch', None), ('await_pos', 192), ('errors', 120), ('recursion', None), ('fwd3', 150), ('hist_rand', 120), ('timeout', 100)],
+    'C01': {'quick': [('nest', 500), ('redispatch', None), ('await_pos', 192), ('errors', 120), ('recursion', None), ('fwd3', 150), ('hist_rand', 120), ('timeout', None)],
             'thorough': [('nest', 12000), ('redispatch', None), ('await_pos', None), ('errors', None), ('recursion', None), ('fwd3', None), ('fwd', 2000), ('hist_rand', 3000), ('timeout', None), ('timeout_rand', 2000)]},
     'C02': {'quick': [('nest', 500), ('await_pos', None), ('fwd3', 200), ('firstuse', None), ('life', 150)],
             'thorough': [('nest', 12000), ('await_pos', None), ('fwd3', None), ('fwd', 3000), ('firstuse', None), ('life', None), ('hist_rand', 2000)]},
     'C03': {'quick': [('nest', 500), ('await_pos', 192), ('recursion', None), ('errors', 120), ('fwd3', 150), ('hist', 150)],
             'thorough': [('nest', 12000), ('await_pos', None), ('recursion', None), ('errors', None), ('fwd3', None), ('fwd', 2000), ('hist', None), ('hist_rand', 3000), ('timeout_rand', 2000)]},
-    'C04': {'quick': [('await_pos', None), ('nest', 500), ('firstuse', None), ('fwd', 150)],
+    'C04': {'quick': [('await_pos', None), ('nest', 500), ('firstuse', None), ('fwd', 150), ('deep_timeout', None)],
             'thorough': [('await_pos', None), ('nest', 15000), ('firstuse', None), ('fwd', 3000), ('hist_rand', 2000), ('timeout_rand', 2000)]},
-    'C05': {'quick': [('await_pos', None), ('nest', 500), ('firstuse', None)],
-            'thorough': [('await_pos', None), ('nest', 15000), ('firstuse', None), ('fwd', 3000), ('life', None), ('hist_rand', 2000)]},
-    'C06': {'quick': [('firstuse', None), ('nest', 500), ('await_pos', 192), ('fwd3', 150), ('life', 150)],
-            'thorough': [('firstuse', None), ('nest', 15000), ('await_pos', None), ('fwd3', None), ('fwd', 3000), ('life', None), ('timeout_rand', 2000)]},
-    'C07': {'quick': [('fwd3', None), ('fwd', 300)],
-            'thorough': [('fwd3', None), ('fwd', 12000)]},
+    'C05': {'quick': [('await_pos', None), ('nest', 500), ('firstuse', None), ('timeout', None), ('deep_timeout', None), ('hist_rand', 150)],
+            'thorough': [('await_pos', None), ('nest', 15000), ('firstuse', None), ('fwd', 3000), ('life', None), ('hist_rand', 2000), ('timeout', None), ('timeout_rand', 3000)]},
+    'C06': {'quick': [('firstuse', None), ('nest', 500), ('idle_par', None), ('errors_par', None), ('await_pos', 192), ('fwd3', 150), ('life', 150)],
+            'thorough': [('firstuse', None), ('nest', 15000), ('idle_par', None), ('errors_par', None), ('await_pos', None), ('fwd3', None), ('fwd', 3000), ('life', None), ('timeout_rand', 2000)]},
+    'C07': {'quick': [('fwd3', None), ('fwd_deep', None), ('fwd', 300)],
+            'thorough': [('fwd3', None), ('fwd_deep', None), ('fwd', 12000)]},
     'C08': {'quick': [('fwd3', 768), ('fwd', 300), ('nest', 300), ('errors', 100), ('timeout', 300), ('timeout_rand', 200)],
             'thorough': [('fwd3', None), ('fwd', 8000), ('nest', 6000), ('errors', None), ('timeout', None), ('timeout_rand', 4000)]},
     'C09': {'quick': [('nest', 500), ('fwd3', 500), ('fwd', 300), ('firstuse', None), ('errors', 100)],
             'thorough': [('nest', 12000), ('fwd3', None), ('fwd', 6000), ('firstuse', None), ('errors', None), ('await_pos', None)]},
-    'C10': {'quick': [('timeout', None), ('timeout_rand', 400)],
-            'thorough': [('timeout', None), ('timeout_rand', 12000)]},
+    'C10': {'quick': [('timeout', None), ('deep_timeout', None), ('timeout_rand', 400)],
+            'thorough': [('timeout', None), ('deep_timeout', None), ('timeout_rand', 12000)]},
     'C11': {'quick': [('errors', None), ('errors_par', None), ('nest', 300)],
             'thorough': [('errors', None), ('errors_par', None), ('nest', 10000), ('timeout_rand', 2000)]},
     'C13': {'quick': [('hist', None), ('hist_rand', 400), ('capacity', 24)],
@@ -68,9 +68,9 @@ OWN = {p: [(p + '.', None)] for p in PROPS}
 OWN['C11'] += [('C01.missing', ('errors', 'errors_par')), ('C03.', ('errors', 'errors_par')), ('C10.child_pending', ('errors', 'errors_par'))]
 OWN['C13'] += [('C01.', ('hist', 'hist_rand', 'capacity')), ('C03.', ('hist', 'hist_rand', 'capacity'))]
 OWN['C14'] += [('C03.', ('capacity', 'retry_dispatch')), ('C01.missing', ('capacity', 'retry_dispatch'))]
-OWN['C10'] += [('C01.missing', ('timeout', 'timeout_rand')), ('C15.hang', ('timeout', 'timeout_rand')), ('C08.result_changed', ('timeout', 'timeout_rand'))]
+OWN['C10'] += [('C01.missing', ('timeout', 'timeout_rand', 'deep_timeout')), ('C15.hang', ('timeout', 'timeout_rand')), ('C08.result_changed', ('timeout', 'timeout_rand', 'deep_timeout'))]
 OWN['C17'] += [('C01.', ('wal',)), ('C03.', ('wal',)), ('X.wal', ('wal',))]
-OWN['C07'] += [('Q.no_quiescence', ('fwd', 'fwd3'))]
+OWN['C07'] += [('C01.missing', ('fwd_deep',)), ('Q.no_quiescence', ('fwd', 'fwd3'))]
 GENERIC = ('Q.', 'X.')
 
 # the monitor's counters that show a property's clauses were actually exercised (vacuity guard)
